@@ -20,6 +20,8 @@ define_language! {
         G4(Slot, Slot, Slot, Slot) = "g4",
         G5(Slot, Slot, Slot, Slot, Slot) = "g5",
         G6(Slot, Slot, Slot, Slot, Slot, Slot) = "g6",
+        H3(Slot, Slot, Slot) = "h3",
+        H4(Slot, Slot, Slot, Slot) = "h4",
         C0() = "c0",
         C1() = "c1",
         W(AppliedId) = "w",
@@ -161,6 +163,8 @@ impl LangId {
                     op("g4", &[SlotF, SlotF, SlotF, SlotF]),
                     op("g5", &[SlotF, SlotF, SlotF, SlotF, SlotF]),
                     op("g6", &[SlotF, SlotF, SlotF, SlotF, SlotF, SlotF]),
+                    op("h3", &[SlotF, SlotF, SlotF]),
+                    op("h4", &[SlotF, SlotF, SlotF, SlotF]),
                     op("", &[PayU32]),
                     op("w", &[Kid(0)]),
                     op("p", &[Kid(0), Kid(0)]),
